@@ -289,7 +289,7 @@ fn check_case_limited(l: &mut Local<'_>, cfg: gen::ModeCfg, spec: &MapSpec, menu
 
 fn main() {
     let ctx = Ctx::from_env("C09");
-    ctx.rule("case = (mode configuration, grammar map incl. degenerate shapes: empty, single object, all spinners, fully stacked, 1 ms gaps, 7 s gaps); per case: settings menu (mods incl. RX/AP/TD/SO/FL/Classic x lazer flag, clock rates {0.5,0.75,1.5,2}, AR/CS/OD/HP all in {0,5,10,11} x with_mods) x every passed_objects prefix x every score state consistent with the prefix counts (all compositions into the mode's hit results; combo in {0,max}; slider end / tick hits in {0,max}, under lazer Classic large ticks also at max + slider heads); oracle on the Debug dumps: no NaN/inf anywhere in difficulty attributes, strains, performance attributes; every float field except ar/hp >= 0; accuracy() in [0,1]; generated state with zero hits => pp == 0; non-trivial = stars > 0");
+    ctx.rule("case = (mode configuration, grammar map incl. degenerate shapes: empty, single object, all spinners, fully stacked, 1 ms gaps, 7 s gaps, three or four simultaneous objects stacked and apart); per case: settings menu (mods incl. RX/AP/TD/SO/FL/Classic x lazer flag, clock rates {0.5,0.75,1.5,2}, AR/CS/OD/HP all in {0,5,10,11} x with_mods) x every passed_objects prefix x every score state consistent with the prefix counts (all compositions into the mode's hit results; combo in {0,max}; slider end / tick hits in {0,max}, under lazer Classic large ticks also at max + slider heads); oracle on the Debug dumps: no NaN/inf anywhere in difficulty attributes, strains, performance attributes; every float field except ar/hp >= 0; accuracy() in [0,1]; generated state with zero hits => pp == 0; non-trivial = stars > 0");
 
     let rich = !ctx.quick();
     // periodic longer maps (12 objects), a reduced settings menu, every prefix, every consistent score state of up to 6 judgements
@@ -315,6 +315,19 @@ fn main() {
                 check_case_limited(l, *cfg, &spec, &menu);
             });
         }
+    }
+    // simultaneous objects (gap 0) stacked and far apart among ordinary ones, three and four in a row: a look-back over earlier
+    // objects divides by accumulated time differences, which are zero here
+    for cfg in MODE_CFGS.iter().filter(|c| c.src != 3) {
+        let alpha = Alphabet::product(&[Kind::Circle, Kind::Slider2], &[0, 150], &[PosK::Same, PosK::Far], &[0], &[0]);
+        let n = ctx.pick(3u32, 4);
+        let menu: Vec<Setting> = vec![Setting::nm(), Setting::bits(settings::DT | settings::FL), Setting { rate: Some(0.5), ..Setting::bits(settings::HD | settings::FL) }];
+        let name = format!("simultaneous/{}to{}/N<={n}/|A|={}", cfg.src, cfg.dst, alpha.len());
+        let skip = alpha.count_upto(2);
+        ctx.universe(&name, alpha.count_upto(n) - skip, |idx, l| {
+            let spec = MapSpec::new(cfg.src, alpha.seq(idx + skip, n));
+            check_case_limited(l, *cfg, &spec, &menu);
+        });
     }
     for cfg in MODE_CFGS.iter() {
         let kinds = if cfg.src == 3 { vec![Kind::Circle, Kind::Hold(0), Kind::Hold(300)] } else { vec![Kind::Circle, Kind::Slider2, Kind::Spinner(600)] };
